@@ -2,6 +2,7 @@ import GwModel.ExecFacts
 import GwModel.ErrList
 import GwModel.Gen.Facts
 import GwModel.Exec.ErrOrder
+import GwModel.ExecSeq
 /-! # C07 — Failures are reported faithfully and stay contained
 
 Machine level (any forest, any failure pattern, any schedule): at return the collector has recorded
@@ -46,6 +47,20 @@ theorem the_error_of_the_last_reply_is_not_lost (as : List ErrOrder.Act) (s : Er
 theorem done_before_recording_can_lose_it :
     (ErrOrder.run (ErrOrder.init [.done, .record]) [.collector, .main, .collector]).map (·.returned) = some (some 0) :=
   ErrOrder.done_then_record_can_lose
+
+/-- data-path level (`Xs.run`, the sequential model of executeOneStep + the collector's stitching, tied to
+    execute.go by the L2.exec correspondence): a root call that came back with an error is counted as a failed
+    task whatever else it returned (data, malformed data, nothing) and whatever its dependents do afterwards … -/
+theorem a_failed_call_is_always_counted (idText : Xs.IdText) (replies : List Xs.Reply) (fuel sid : Nat)
+    (strip nodeParent : Bool) (kids : List (List Fp.PInfo × Xs.XStep)) (st : Xs.St) (r : Xs.Reply)
+    (hr : Xs.findReply replies sid "" = some r) (herr : r.err = true) :
+    st.failed + 1 ≤ (Xs.runTask idText replies (fuel + 1) (.mk sid strip nodeParent kids) [] st).failed :=
+  Xs.failed_reply_is_counted idText replies fuel sid strip nodeParent kids st r hr herr
+
+/-- … and no later task, successful or not, takes a recorded failure away -/
+theorem failures_are_never_uncounted (idText : Xs.IdText) (replies : List Xs.Reply) (fuel : Nat) (s : Xs.XStep)
+    (ip : List Fp.RPt) (st : Xs.St) : st.failed ≤ (Xs.runTask idText replies fuel s ip st).failed :=
+  Xs.runTask_failed_le idText replies fuel s ip st
 
 /-- the reported list is the flattening of what was recorded, independent of the order of recording -/
 theorem reported_errors_order_independent {α : Type} {a b : List (ErrList.E α)} (h : a.Perm b) :
